@@ -55,6 +55,8 @@ class RunnerBasics(Harness):
             {"M": 1, "A": 2, "H": 0, "S": 2, "acts": L, "pre": 0, "cap": 2, "script": "cancel-filled"},
             # two markets, agents free to hit them in any order (records must keep the global event order)
             {"M": 2, "A": 2, "H": 0, "S": 1, "acts": L, "pre": 0, "cap": 2, "script": "two-markets"},
+            # a crossed book left by a no-execution step is cleared by the round a third agent's order starts
+            {"M": 1, "A": 3, "H": 0, "S": 1, "acts": L, "pre": 1, "cap": 3, "script": "bystander"},
             # a trading halt fired by a fill, orders accepted during the halt, resumption: 3 agents, 4 steps
             {"M": 1, "A": 3, "H": 0, "S": 4, "acts": L, "pre": 0, "cap": 3, "script": "halt"},
         ]
@@ -95,6 +97,10 @@ class RunnerBasics(Harness):
             menu = {"vol_fixed": 1, "per_agent": {
                 "0": {"side": "B", "acts_by_time": {"0": ["limit"], "1": ["none", "limit", "cancel"]}},
                 "1": {"side": "S", "acts_by_time": {"0": ["limit"], "1": ["none", "cancel"]}}}, "ttl": [None, 1]}
+        elif sc == "bystander":
+            menu = {"vol_hi": 2, "price_hi": 1000, "acts": ["limit"],
+                    "per_agent": {"0": {"side": "B", "active": [0, 0]}, "1": {"side": "S", "active": [0, 0]},
+                                  "2": {"active": [1, 1]}}}
         elif sc == "halt":
             # step 1: agent 0 bids (solver-chosen price), agent 1 sells into it, agent 2 bids again in the same step
             # (after the halt if the fill crossed the 10% line); step 2: quotes at 300 on both sides pile up (halt)
@@ -451,11 +457,13 @@ class Spoofing(Harness):
     what_symbolic = "price and volume of the spoofed order, activation order; who spoofs whom and through which path is the case split"
     nontrivial_event = "a spoofed submission was refused"
     reach = ("nontrivial",)
-    bounds = {"quick": "normal and high-frequency path; spoofed new order / spoofed cancel of the other agent's resting order", "thorough": "same"}
+    bounds = {"quick": "normal and high-frequency path; spoofed new order / spoofed cancel of the other agent's resting "
+                       "order, alone or in one batch with an order of the submitter's own", "thorough": "same"}
     agreement_runs = 2
 
     def cases(self, tier):
-        return [{"hft": h, "what": w} for h in (False, True) for w in ("order", "cancel")]
+        return [{"hft": h, "what": w, "mixed": mx} for h in (False, True) for w in ("order", "cancel")
+                for mx in (False, True)]
 
     def run(self, g, case):
         from pams.agents import Agent, HighFrequencyAgent
@@ -473,10 +481,12 @@ class Spoofing(Harness):
                 return []
             if t == 1 and not state["done"]:
                 state["done"] = True
+                own = [Order(agent_id=agent.agent_id, market_id=0, is_buy=True, kind=LIMIT_ORDER, volume=1,
+                             price=g.int("p_own", 1, 1000))] if case.get("mixed") else []
                 if case["what"] == "order":
-                    return [Order(agent_id=0, market_id=0, is_buy=False, kind=LIMIT_ORDER, volume=g.int("v1", 1, 100),
-                                  price=g.int("p1", 1, 1000))]
-                return [Cancel(order=state["victim_order"])]
+                    return own + [Order(agent_id=0, market_id=0, is_buy=False, kind=LIMIT_ORDER,
+                                        volume=g.int("v1", 1, 100), price=g.int("p1", 1, 1000))]
+                return own + [Cancel(order=state["victim_order"])]
             return []
 
         class Victim(Agent):
@@ -516,8 +526,8 @@ class Spoofing(Harness):
         g.require(len(ctx.logger.distinct(OrderLog)) == (1 if not case["hft"] else len(ctx.logger.distinct(OrderLog))),
                   "C04.spoofed-submission-had-effect")
         g.require(len(ctx.logger.distinct(CancelLog)) == 0, "C04.spoofed-submission-had-effect")
-        buys = m.get_buy_order_book()
-        g.require(len(buys) == 1, "C04.spoofed-submission-had-effect")
+        g.require(sum(m.get_buy_order_book().values()) == o.volume, "C04.spoofed-submission-had-effect",
+                  "the bid side holds more than the victim's own order")
 
 
 class C04_Spoofing(Spoofing):
